@@ -17,6 +17,9 @@ CLAIMED = {
     "C02": ("Lean 4 proof (strict total LWW order; merge = join; never-backwards; untouched bytes) + differential correspondence and permutation oracle on the real iterator",
             "Theorems in lean/LsProps/C02.lean about the byte-level model of NativeIterator.Merge; correspondence stream compares Merge/Clean byte-exactly on exhaustive small scope and random inputs; oracle merges triples in all six orders on the real code.",
             "7/C02", ""),
+    "C20": ("Lean 4 proof (decode∘encode = id, legal key length, encodeAll injective/order-preserving or refused) + differential correspondence of the real dupsort hack functions",
+            "Theorems in lean/LsProps/C20.lean about the model of dupSortHackEncodeOne/DecodeOne/Encode: exact recovery of every (key,value) pair for keys of 1..255 bytes, shadow key length 6..511, accepted contents map to strictly increasing (hence distinct) shadow keys that decode to the original list, colliding or out-of-range data is refused with an error. Correspondence stream through the guard-tagged wrappers of the real functions incl. values longer than the space left and zero bytes next to the separator; oracle re-decodes every encoded DBI. The mirror-cycle part is covered with C11's transaction model.",
+            "7/C20", ""),
 }
 
 ALL = ["C%02d" % i for i in range(1, 21)]
